@@ -273,6 +273,8 @@ def reduced(rec):
         free = [n for k, n in enumerate(names) if mask is None or not mask[k]]
         if list(r.parameters()) != free or r.n_parameters() != len(free) or r.n_fixed_parameters() != len(names) - len(free):
             return 'free names %s (n=%s, fixed=%s); the wrapped model has %s with mask %s' % (r.parameters(), r.n_parameters(), r.n_fixed_parameters(), names, None if mask is None else list(mask))
+        if bool(r.has_sensitivities()) != bool(inner.has_sensitivities()):
+            return 'the reduced model reports has_sensitivities() = %s, the wrapped model whose simulations it returns has %s' % (r.has_sensitivities(), inner.has_sensitivities())
         if r.has_sensitivities():
             req = inner._simulator.sensitivities[1]
             want = [('init(%s)' % inner._parameter_names[k]) if k < inner._n_states else inner._parameter_names[k] for k, n in enumerate(names) if n in free]
@@ -302,13 +304,27 @@ def reduced(rec):
                 r = chi_sym.ReducedMechanisticModel(inner)
                 n += 1
                 done = []
+                want_fixed = set()         # documented: a value fixes the named parameter, None frees it, other parameters keep their status
+                want_sens = False          # documented: enable_sensitivities sets it, set_outputs resets the sensitivity settings, nothing else touches it
                 for nm in seq:
                     try:
                         dict(rops)[nm](r)
                         done.append(nm)
+                        want_sens = {'sens_on': True, 'sens_off': False, 'outputs': False}.get(nm, want_sens)
+                        if nm.startswith('fix_'):
+                            want_fixed.add(nm[4:])
+                        elif nm.startswith('free_'):
+                            want_fixed.discard(nm[5:])
                     except EXPECTED_ERRORS:
                         done.append(nm + '!')
                     msg = check(r)
+                    if msg is None:
+                        wn = r.mechanistic_model().parameters()
+                        want_free = [n_ for k_, n_ in enumerate(wn) if not (('first' in want_fixed and k_ == 0) or ('last' in want_fixed and k_ == len(wn) - 1))]
+                        if list(r.parameters()) != want_free:
+                            msg = 'free parameters %s, the net configuration fixes %s and leaves %s free' % (list(r.parameters()), sorted(want_fixed), want_free)
+                    if msg is None and bool(r.has_sensitivities()) != want_sens:
+                        msg = 'sensitivities are %s, the net configuration has them %s' % ('enabled' if r.has_sensitivities() else 'disabled', 'enabled' if want_sens else 'disabled')
                     if msg:
                         from contracts import mech_native
                         wit = mech_native.reduced_witness(done, rec.seed)
